@@ -73,6 +73,10 @@ CHECKS = {
                 text="every ordered pair of numerals of the alphabet under comparison, membership, arithmetic, set operations and as hash/range key, every 3-subset of number sort keys and pair of binary sort keys for ordering, and an untouched 38-digit attribute across every arithmetic update, judged by exact decimal arithmetic",
                 note="24 (36) numerals chosen to separate text, double and decimal semantics; the float64 and key-text findings are attributed only when the answer equals that defect model's prediction",
                 ref="DESIGN.md 3/C12"),
+    "C14": dict(engine="E2", technique=E2 + " (every mutable location of every SDK value tree, one mutation per fresh client)",
+                text="for every value tree and every mutable location of its SDK v1 / v2 representation, in every input and output scenario, mutating that location after the call returns leaves every later read unchanged, and returned structures are not changed by later writes",
+                note="locations are enumerated structurally (pointers, bytes, set members, list elements, map entries, v2 member structs); one fresh client per (scenario, tree, location)",
+                ref="DESIGN.md 3/C14"),
 }
 
 PENDING = {}
